@@ -1,8 +1,8 @@
 # Build/verify the framework from files on disk only (offline).
-SPECS := CkptActions Executor SchedAPI TraceExec TraceClient TraceDomain TraceSibling TraceTwoLevel TraceMultistage TracePeriodic ExecFree GenBasic GenBasicFree GenBinomialCore GenBinomial TraceGenBinomial GenTwoLevel GenMixedCore GenMixed TraceGenMixed ExecRefines ExecOptCore ExecOpt OptTables HierTables GWForm CostOrder Client Process Domain DomainGen ActionUniverse ActionPairs ActionPairsGen PlanTable OpMachine TraceOps OpRefines
+SPECS := CkptActions Executor SchedAPI TraceExec TraceClient TraceDomain TraceSibling TraceTwoLevel TraceMultistage TracePeriodic ExecFree GenBasic GenBasicFree GenBinomialCore GenBinomial TraceGenBinomial GenTwoLevel GenMixedCore GenMixed TraceGenMixed ExecRefines ExecOptCore ExecOpt OptTables HierTables GWForm CostOrder Client Process Domain DomainGen ActionUniverse ActionPairs ActionPairsGen PlanTable OpMachine TraceOps OpRefines OpOpt ExecIndCore
 PY := /venv/bin/python
 
-.PHONY: setup sany manifest selftest clean
+.PHONY: setup sany manifest selftest clean apalache tlaps
 
 setup: sany
 	@mkdir -p out evidence
@@ -23,6 +23,9 @@ clean:
 	rm -rf out
 
 # optional: unbounded-n inductive invariant of the executor core (Apalache, about 10 s)
+tlaps:
+	@mkdir -p out/tlaps && cp spec/ExecIndCore.tla spec/ExecIndProof.tla out/tlaps/ && cd out/tlaps && tlapm --toolbox 0 0 ExecIndProof.tla 2>&1 | tail -1
+
 apalache:
 	apalache-mc check --cinit=ConstInit --init=Init --inv=IndInv --length=0 --out-dir=out/apa spec/ExecInd.tla | grep "outcome"
 	apalache-mc check --cinit=ConstInit --init=IndInit --inv=IndInv --length=1 --out-dir=out/apa spec/ExecInd.tla | grep "outcome"
